@@ -694,7 +694,20 @@ impl DPEventLoop {
   }
 
   fn remote_reader_discovered(&mut self, remote_reader: &DiscoveredReaderData) {
+    self.match_remote_reader(remote_reader, None);
+  }
+
+  // Match a remote reader to the local writers on its topic, or to just one of
+  // them (a writer that was created after the remote reader was discovered).
+  fn match_remote_reader(
+    &mut self,
+    remote_reader: &DiscoveredReaderData,
+    only_local_writer: Option<EntityId>,
+  ) {
     for writer in self.writers.values_mut() {
+      if only_local_writer.is_some_and(|eid| eid != writer.guid().entity_id) {
+        continue;
+      }
       if remote_reader.subscription_topic_data.topic_name() == writer.topic_name() {
         #[cfg(not(feature = "security"))]
         let match_to_reader = true;
@@ -769,8 +782,21 @@ impl DPEventLoop {
   }
 
   fn remote_writer_discovered(&mut self, remote_writer: &DiscoveredWriterData) {
+    self.match_remote_writer(remote_writer, None);
+  }
+
+  // Match a remote writer to the local readers on its topic, or to just one of
+  // them (a reader that was created after the remote writer was discovered).
+  fn match_remote_writer(
+    &mut self,
+    remote_writer: &DiscoveredWriterData,
+    only_local_reader: Option<EntityId>,
+  ) {
     // update writer proxies in local readers
     for reader in self.message_receiver.available_readers.values_mut() {
+      if only_local_reader.is_some_and(|eid| eid != reader.guid().entity_id) {
+        continue;
+      }
       if &remote_writer.publication_topic_data.topic_name == reader.topic_name() {
         #[cfg(not(feature = "security"))]
         let match_to_writer = true;
@@ -876,6 +902,7 @@ impl DPEventLoop {
     new_reader.set_requested_deadline_check_timer();
     trace!("Add reader: {:?}", new_reader);
     let topic_name = new_reader.topic_name().clone();
+    let new_reader_entity_id = new_reader.guid().entity_id;
     self.message_receiver.add_reader(new_reader);
 
     // Discovery may already know remote Writers on this topic. They were
@@ -888,7 +915,7 @@ impl DPEventLoop {
         .collect::<Vec<_>>()
     };
     for dwd in &known_writers {
-      self.remote_writer_discovered(dwd);
+      self.match_remote_writer(dwd, Some(new_reader_entity_id));
     }
   }
 
@@ -950,7 +977,8 @@ impl DPEventLoop {
       .expect("Writer command channel registration failed!!");
 
     let topic_name = new_writer.topic_name().clone();
-    self.writers.insert(new_writer.guid().entity_id, new_writer);
+    let new_writer_entity_id = new_writer.guid().entity_id;
+    self.writers.insert(new_writer_entity_id, new_writer);
 
     // Discovery may already know remote Readers on this topic. They were
     // announced before this Writer existed, so match them now.
@@ -962,7 +990,7 @@ impl DPEventLoop {
         .collect::<Vec<_>>()
     };
     for drd in &known_readers {
-      self.remote_reader_discovered(drd);
+      self.match_remote_reader(drd, Some(new_writer_entity_id));
     }
   }
 
